@@ -18,8 +18,8 @@ RULE = ("each case is a seeded batch of points for one derivative routine (Exp_S
         "the mass below 1e-4, plus exact 0 and axis-aligned directions; distinct = hash of first point; non-trivial = nonzero angle")
 ASSUMPTIONS = ["absolute tolerance 1e-6 (scaled by max(1,|r|) for SE(3) blocks that multiply r, by max(1,|psi_dot|) for T_SO3_dot and by max(1,|D|_inf) for Log_SO3_A whose entries grow like 1/(pi-angle)^2)",
                "reference derivative: 8th-order central differences with step 1e-5 in 50-digit arithmetic on the mpmath models of vlib/mpref.py (truncation error < 1e-30)",
-               "Log_SO3_A is the partial derivative of the formula extended to R^{3x3} (trace and skew part); the model differentiates the same extension",
-               "|psi| <= pi - 1e-3 for the logarithm derivatives (Log is not differentiable at half turns)"]
+               "away from half-turns Log_SO3_A is the partial derivative of the formula extended to R^{3x3} (trace and skew part); the model differentiates the same extension",
+               "the logarithm derivatives are judged on tangent directions of SO(3) / SE(3) for |psi| <= pi - 1e-9 (Log is not differentiable at half turns); the entrywise R^{3x3}-extension of Log_SO3_A only where the routine uses the trace / skew-part formula (cos(angle) >= -0.98)"]
 REQUIRED_MONITORS = ["Exp_SO3_psi", "T_SO3_psi", "T_SO3_dot", "T_SO3_inv_psi", "Log_SO3_A", "Exp_SE3_h", "Log_SE3_H", "T_SO3_quat_P", "T_SO3_inv_quat_P", "fd_tie", "purity", "representation"]
 META = {
     "level_text": "Exploration: every SO(3)/SE(3) derivative routine is evaluated on seeded points (log-uniform angles down to 1e-9 and exact zero) and compared with the derivative of an independent 50-digit model of the map; held on the points generated.",
@@ -35,7 +35,7 @@ def cases(tier, seed):
     return [{"kind": KINDS[i % len(KINDS)], "batch": 3} for i in range(n)]
 
 
-def _psi(rng):
+def _psi(rng, near_pi=False):
     c = int(rng.integers(9))
     if c == 0:
         a = 0.0
@@ -48,7 +48,7 @@ def _psi(rng):
     elif c == 6:
         a = rng.uniform(0, np.pi - 1e-3)
     else:
-        a = np.pi - loguniform(rng, 1e-3, 1e-1)
+        a = np.pi - loguniform(rng, 1e-9 if near_pi else 1e-3, 1e-1)
     n = random_unit(rng)
     if rng.random() < 0.2:
         n = np.eye(3)[int(rng.integers(3))] * (1 if rng.random() < 0.5 else -1)
@@ -149,7 +149,7 @@ def _run_case(spec, ctx):
         ctx.sample({"kind": kind, "calls": len(thunks)})
         return
     for b in range(spec["batch"]):
-        psi, cls = _psi(rng)
+        psi, cls = _psi(rng, near_pi=kind in ("Log_SO3_A", "Log_SE3_H"))
         a = float(np.linalg.norm(psi))
         ctx.cls(f"{kind}:{cls}")
         nontrivial |= a > 0
@@ -201,6 +201,24 @@ def _run_case(spec, ctx):
                 return [f * x for x in ax]
             D = np.zeros((3, 3, 3))
             if a > 0:
+                # (1) intrinsic derivative: the routine contracted with the tangent directions dA = A skew(e_k) of SO(3) at A is the
+                #     derivative of the logarithm along A Exp(s e_k) - the only derivative the map on SO(3) has; decided at every
+                #     angle below pi (rotations a hair below a half-turn included)
+                J_ = np.asarray(R.Log_SO3_A(A), dtype=float)
+                ctx.mon("Log_SO3_A")
+                for k in range(3):
+                    ek = [mp.mpf(0)] * 3; ek[k] = mp.mpf(1)
+                    dref = np.array([float(x) for x in mpref.mdiff(lambda s_, ek=ek: list(mpref.log_so3(Am * mpref.exp_so3([s_ * x for x in ek]))), 0,
+                                                                    h=mp.mpf("1e-8") * min(1.0, a * a, (np.pi - a) ** 2))])
+                    S_ = np.zeros((3, 3)); S_[(k + 2) % 3, (k + 1) % 3] = 1; S_[(k + 1) % 3, (k + 2) % 3] = -1
+                    got = np.einsum("lij,ij->l", J_, A @ S_)
+                    if not np.abs(got - dref).max() <= TOL * max(1.0, np.abs(dref).max()):
+                        ctx.violation("Log_SO3_A", "derivative routine contracted with a tangent direction of SO(3) differs from the derivative of the logarithm (50-digit reference)",
+                                      {"psi": psi, "angle": a, "pi_minus_angle": float(np.pi - a), "direction": k, "claimed": got, "reference": dref})
+                        break
+            if a > 0 and np.cos(a) >= -0.98:
+                # (2) where the routine documents itself as the derivative of the R^{3x3}-extension (trace and skew part; the
+                #     repository's own test compares it with ambient difference quotients), that extension is checked entry by entry
                 for i in range(3):
                     for j in range(3):
                         def g(s, i=i, j=j):
@@ -208,7 +226,7 @@ def _run_case(spec, ctx):
                             return logext(M)
                         D[:, i, j] = [float(x) for x in mpref.mdiff(g, 0, h=mp.mpf("1e-8") * min(1.0, a * a))]
                 _report(ctx, "Log_SO3_A", psi, R.Log_SO3_A(A), D, scale=max(1.0, np.abs(D).max()), extra={"angle": a})
-            else:
+            if a == 0:
                 ctx.mon("Log_SO3_A")
                 J = R.Log_SO3_A(A)
                 # at the identity only the skew part is differentiable: check the action on skew directions
@@ -253,7 +271,8 @@ def _run_case(spec, ctx):
                     rr = mp.matrix([M[0, 3], M[1, 3], M[2, 3]])
                     hr = mpref.T_so3_inv(pl).T * rr
                     return [hr[0], hr[1], hr[2]] + list(pl)
-                dref = np.array([float(x) for x in mpref.mdiff(g, 0)])
+                # (step far inside the distance to the half-turn: the differences must not reach across the cut of the logarithm)
+                dref = np.array([float(x) for x in mpref.mdiff(g, 0, h=mp.mpf(min(1e-5, 1e-3 * (np.pi - a))))])
                 xi_f = np.zeros(6); xi_f[k] = 1.0
                 X = np.zeros((4, 4)); X[:3, :3] = np.array([[0, -xi_f[5], xi_f[4]], [xi_f[5], 0, -xi_f[3]], [-xi_f[4], xi_f[3], 0]]); X[:3, 3] = xi_f[:3]
                 dH = H @ X
